@@ -30,6 +30,7 @@
 EXTENDS Naturals, Sequences, FiniteSets, TLC, Json
 
 CONSTANTS Embeddings,     \* embedding tags enabled in this configuration
+          DeepForms,      \* forms of positions at which the nested-operator embeddings (DeepEmbeddings) are linted too
           Variants        \* base-workflow variants: 0 = minimal, 1 = decorated (other jobs and steps, needs, matrix),
                           \* 2 / 3 = the same two with the value written as a double-quoted scalar
 
@@ -109,8 +110,13 @@ NameOfKey(k) == IF k = NoKey THEN "none" ELSE KeyName(k)
          (bool / number / object / array positions and the like), "cond" = an `if:` condition
          written without ${{ }}.
    var : distinguishes several syntactic forms at the same path.
-   code: the workflow key passed by the call site of rule_expression.go that checks this field. *)
-P(path, form, var, code) == [path |-> path, form |-> form, var |-> var, code |-> code]
+   code: the workflow key passed by the call site of rule_expression.go that checks this field.
+   Every place where parse.go accepts one ${{ }} instead of a mapping / sequence / bool / number is a
+   position of its own (var "expr" or form "one"): env (workflow, job, step, container, service),
+   matrix, matrix rows, include / exclude and their elements, services, runs-on and labels. *)
+\* alt: a second table key that the documentation can equally be read to mean at this position ("" = none)
+PA(path, form, var, code, alt) == [path |-> path, form |-> form, var |-> var, code |-> code, alt |-> alt]
+P(path, form, var, code) == PA(path, form, var, code, "")
 ST == <<"jobs", J, "steps", "[*]">>
 CT == <<"jobs", J, "container">>
 SV == <<"jobs", J, "services", "<service_id>">>
@@ -208,6 +214,10 @@ Positions == {
   P(CT \o <<"credentials", "username">>, "tmpl", "", "jobs.<job_id>.container.credentials"),
   P(CT \o <<"credentials", "password">>, "one", "", "jobs.<job_id>.container.credentials"),
   P(CT \o <<"env", "<env_name>">>, "tmpl", "", "jobs.<job_id>.container.env.<env_id>"),
+  \* `env: ${{ }}` of a container: the path is below `...container` (longest prefix) but the expression yields the
+  \* members governed by `...container.env.<env_id>`; the documentation does not say which row applies (DESIGN 5.22),
+  \* so only names on which both rows agree are judged
+  PA(CT \o <<"env">>, "one", "expr", "jobs.<job_id>.container.env.<env_id>", "jobs.<job_id>.container.env.<env_id>"),
   P(CT \o <<"ports", "[*]">>, "tmpl", "", kCont),
   P(CT \o <<"volumes", "[*]">>, "tmpl", "", kCont),
   P(CT \o <<"options">>, "tmpl", "", kCont),
@@ -217,6 +227,8 @@ Positions == {
   P(SV \o <<"credentials", "username">>, "tmpl", "", "jobs.<job_id>.services.<service_id>.credentials"),
   P(SV \o <<"credentials", "password">>, "one", "", "jobs.<job_id>.services.<service_id>.credentials"),
   P(SV \o <<"env", "<env_name>">>, "tmpl", "", "jobs.<job_id>.services.<service_id>.env.<env_id>"),
+  PA(SV \o <<"env">>, "one", "expr", "jobs.<job_id>.services.<service_id>.env.<env_id>",
+     "jobs.<job_id>.services.<service_id>.env.<env_id>"),
   P(SV \o <<"ports", "[*]">>, "tmpl", "", kSvc),
   P(SV \o <<"volumes", "[*]">>, "tmpl", "", kSvc),
   P(SV \o <<"options">>, "tmpl", "", kSvc),
@@ -242,8 +254,6 @@ Positions == {
   P(ST \o <<"timeout-minutes">>, "one", "", "jobs.<job_id>.steps.timeout-minutes")
 }
 (* Not catalogued, with the reason:
-   - jobs.<job_id>.container.env / services.<service_id>.env given as one ${{ }} expression: the
-     documentation does not say which of `...container` and `...container.env.<env_id>` applies.
    - event names, webhook `types`, branch/tag filter patterns, `cron`, `needs`: no table key and other
      rules (events, glob, job-needs) report on a placeholder there, so the verdict of the expression
      rule cannot be isolated (tried with a neutral placeholder).  Input `type`, `permissions` values,
@@ -266,7 +276,10 @@ KeyOf(p) == LET c == Cands(p.path) IN
             ELSE CHOOSE k \in c : \A o \in c : Len(o.segs) <= Len(k.segs)
 
 \* ---- declarative verdict (the property)
-Allowed(p, n) == LET k == KeyOf(p) IN n \in (k.ctx \cup k.fns)     \* NoKey: nothing is allowed
+InRow(k, n) == n \in (k.ctx \cup k.fns)
+AltRow(p) == IF p.alt = "" THEN KeyOf(p) ELSE RowOf(p.alt)
+Allowed(p, n) == InRow(KeyOf(p), n) /\ InRow(AltRow(p), n)          \* NoKey: nothing is allowed
+Ambiguous(p, n) == InRow(KeyOf(p), n) # InRow(AltRow(p), n)         \* the two readings differ: not judged
 AllowedAtKey(keyname, n) == IF keyname \in KeyNames THEN n \in (RowOf(keyname).ctx \cup RowOf(keyname).fns)
                             ELSE FALSE
 
@@ -287,12 +300,34 @@ OpReported(p, n) == n \notin (OpRow(p).ctx \cup OpRow(p).fns)
      direct NAME(...)                     (special functions only, where a bool/string fits)
      ternary W(NAME) && W('a') || W('b')  nand   !(W(NAME) && W('a')) && W('b')    (the cond && x || y idiom:
                                           the checker narrows types there and must still visit every operand)   *)
+(* Place of the occurrence in the expression tree.  A frame puts its operand H at one place of a node:
+     orL  H || A     orR  A || H     andL  H && A     andR  A && H     not  !H
+     cmpL H == 'a'   cmpR 'a' != H   argFormat format('{0}', H)        argContains contains(H, 'a')
+     idx  A[H]       recv H.y        recvIdx H['y']
+   A frame sequence is applied innermost first to W(NAME) (and to the bare NAME where the types allow);
+   the logical frames and `not` may be stacked (the checker narrows types along && || ! and must still
+   visit every operand), the others sit directly on the occurrence.  The verdict is the same for all. *)
+LogicFrames == {"orL", "orR", "andL", "andR", "not"}
+LeafFrames  == {"cmpL", "cmpR", "argFormat", "argContains", "idx", "recv", "recvIdx"}
+FrameSeqs == LET F1 == LogicFrames \cup LeafFrames IN
+             {<<f>> : f \in F1} \cup {<<f, g>> : f \in F1, g \in LogicFrames}
+               \cup {<<f, g, h>> : f \in F1, g \in LogicFrames, h \in LogicFrames}
+RECURSIVE DotsFrom(_, _)
+DotsFrom(s, i) == IF i > Len(s) THEN "" ELSE (IF i = 1 THEN "" ELSE ".") \o s[i] \o DotsFrom(s, i + 1)
+FrameName(s) == "f:" \o DotsFrom(s, 1)
+\* through Linter.Lint: both operators x both sides, nested one and two levels, and `!` at each level of a pair
+Binary == {"orL", "orR", "andL", "andR"}
+LintFrameSeqs == {<<f>> : f \in Binary} \cup {<<f, g>> : f \in Binary, g \in Binary}
+                   \cup {<<"not", f, g>> : f \in {"orL", "andL"}, g \in {"orL", "andL"}}
+                   \cup {<<f, "not", g>> : f \in {"orL", "andL"}, g \in {"orL", "andL"}}
+DeepEmbeddings == {FrameName(s) : s \in LintFrameSeqs}
+
 \* a lone ${{ }} at `runs-on` / `labels` is type-checked (string or array): a bare bool call does not fit
 TypedWhenSingle(p) == p.path \in {<<"jobs", J, "runs-on">>, <<"jobs", J, "runs-on", "labels">>}
 AllEmbeddings == {"wrap", "upper", "and", "or", "arg", "index", "not", "cmp", "deep", "lower", "mixed",
                   "text", "second", "direct", "ternary", "nand"}
 EmbOK(p, n, e) ==
-  /\ e \in Embeddings
+  /\ e \in Embeddings \/ (e \in DeepEmbeddings /\ p.form \in DeepForms)
   /\ e \in {"text", "second"} => p.form = "tmpl"
   /\ e = "nand" => p.form # "cond"        \* a bare `if: !(...)` would be a YAML tag
   /\ e = "direct" => n \in SpecialFns /\ p.form \in {"tmpl", "cond"} /\ ~TypedWhenSingle(p)
@@ -315,6 +350,7 @@ Kind(n) == IF n \in Contexts THEN "ctx" ELSE "fn"
 
 Header == ToJson([kind |-> "header",
                   keys |-> KeyNames, absent |-> AbsentKeys, contexts |-> Contexts, fns |-> SpecialFns,
+                  frames |-> FrameSeqs,
                   positions |-> {[pos |-> PosId(p), form |-> p.form, key |-> NameOfKey(KeyOf(p)), code |-> p.code] : p \in Positions}])
 
 Init == cur = Blank /\ tc = Header
@@ -328,13 +364,14 @@ PickName == /\ cur.stage = "pos"
                  /\ cur' = [cur EXCEPT !.stage = "posname", !.name = n]
                  /\ tc' = ToJson([kind |-> "posname", pos |-> cur.pos, name |-> n])
 PickEmb == /\ cur.stage = "posname"
-           /\ \E e \in AllEmbeddings, v \in Variants :
+           /\ \E e \in AllEmbeddings \cup DeepEmbeddings, v \in Variants :
                 LET p == cur.p IN
                 /\ EmbOK(p, cur.name, e)
+                /\ e \in DeepEmbeddings => v = 0
                 /\ cur' = [cur EXCEPT !.stage = "vec", !.emb = e, !.variant = v]
                 /\ tc' = ToJson([kind |-> "vec", pos |-> cur.pos, form |-> p.form, key |-> cur.key,
                                  name |-> cur.name, nkind |-> Kind(cur.name), emb |-> e, variant |-> v,
-                                 allowed |-> Allowed(p, cur.name),
+                                 allowed |-> Allowed(p, cur.name), ambiguous |-> Ambiguous(p, cur.name),
                                  constrained |-> (KeyOf(p) # NoKey)])
 PickKey == /\ cur.stage = "init"
            /\ \E k \in KeyNames \cup AbsentKeys :
@@ -373,11 +410,14 @@ EveryKeyHasPosition == AtInit(KeysWithoutPosition = {})
 CodeKeysAgree == AtInit(
   \A p \in Positions :
     /\ p.code = "" <=> KeyOf(p) = NoKey
-    /\ p.code # "" => p.code \in KeyNames /\ RowOf(p.code).ctx = KeyOf(p).ctx /\ RowOf(p.code).fns = KeyOf(p).fns)
-OpMatchesProperty == AtInit(\A p \in Positions, n \in Names : OpReported(p, n) = ~Allowed(p, n))
+    /\ p.code # "" => /\ p.code \in KeyNames
+                       /\ IF p.alt = "" THEN RowOf(p.code).ctx = KeyOf(p).ctx /\ RowOf(p.code).fns = KeyOf(p).fns
+                                         ELSE p.alt \in KeyNames /\ p.code \in {KeyName(KeyOf(p)), p.alt})
+OpMatchesProperty == AtInit(\A p \in Positions, n \in Names : ~Ambiguous(p, n) => OpReported(p, n) = ~Allowed(p, n))
 \* letter case and place inside the value are not inputs of the verdict
 EmbeddingIndependent ==
-  cur.stage = "vec" => \A e \in AllEmbeddings : EmbOK(cur.p, cur.name, e) =>
-                          Allowed(cur.p, cur.name) = AllowedAtKey(cur.key, cur.name)
+  cur.stage = "vec" /\ cur.p.alt = "" =>
+     \A e \in AllEmbeddings \cup DeepEmbeddings : EmbOK(cur.p, cur.name, e) =>
+        Allowed(cur.p, cur.name) = AllowedAtKey(cur.key, cur.name)
 AbsentKeysAllowNothing == AtInit(\A k \in AbsentKeys, n \in Names : ~AllowedAtKey(k, n))
 =============================================================================
